@@ -50,6 +50,16 @@ def gen(tier, rng):
     n = 150 if tier == "quick" else 3000
     for i in range(n):
         yield rand_script(rng, i)
+    # scheduled runs of the real queue under the controllable runtime (hook H2): every synchronisation
+    # operation is a scheduling point, virtual time; each trace is replayed in lock-step through the model
+    ns = 60 if tier == "quick" else 1500
+    for early in (294, 296, 299, 290, 250):
+        for sd in range(ns):
+            yield "mqs %d r0:timed30|r1:pop|p0:sleep%d,push7" % (sd * 7 + early, early), {"scheduled": "window-%d" % early}
+    for i in range(300 if tier == "quick" else 6000):
+        sc = mqbase.rand_mqs(rng, allow_unblock=(i % 3 == 0))
+        for sd in range(3):
+            yield "mqs %d %s" % (rng.below(1 << 30), sc), {"scheduled": "random"}
 
 
 def project(o):
@@ -57,4 +67,4 @@ def project(o):
 
 
 def nontrivial(case, mo):
-    return ".pop" in case or ".timed" in case
+    return ".pop" in case or ".timed" in case or ":pop" in case or ":timed" in case
